@@ -153,31 +153,28 @@ end decision
 
 /-! ## (c) request-side reading of schemas -/
 
-/- Full-strength statement (does NOT hold of the code, see `readOnlyNull_witness`):
-     visit_asreq_iff (exro) (s) (v) : visit exro s v = true ↔ SatReq exro s v
-   What is proved: the same statement outside the exclusion class `roNull` (a readOnly property sent as null). -/
-
-/-- **C06(c).** Outside the class `ReadOnlyNull`, the request-side validator accepts a value exactly when the
-value satisfies the schema read as a request: types, nullable, minLength, maximum, items, properties,
-additionalProperties, required — where a readOnly property need not be present even if required and must be
-absent unless read-only validation is excluded, and writeOnly plays no role. For every schema of the
-fragment, every value, both settings of the option; no bound on sizes. -/
-theorem visit_asreq_iff_partial (exro : Bool) :
-    ∀ (s : RS) (v : V), roNull exro s v = false → (visit exro s v = true ↔ SatReq exro s v) := by
+/-- **C06(c), full strength** (since repair e80060c of the repository; before it the statement needed the
+exclusion class ReadOnlyNull). The request-side validator accepts a value exactly when the value satisfies the
+schema read as a request: types, nullable, minLength, maximum, items, properties, additionalProperties,
+required — where a readOnly property need not be present even if required and must be absent unless
+read-only validation is excluded, and writeOnly plays no role. For every schema of the fragment, every
+value, both settings of the option; no bound on sizes. -/
+theorem visit_asreq_iff (exro : Bool) :
+    ∀ (s : RS) (v : V), visit exro s v = true ↔ SatReq exro s v := by
   have key := visit.mutual_induct
-    (motive_1 := fun s v => roNull exro s v = false → (visit exro s v = true ↔ SatReq exro s v))
-    (motive_2 := fun s kvs => roNullFields exro s kvs = false → (visitFields exro s kvs = true ↔ SatFields exro s kvs))
-    (motive_3 := fun it xs => roNullItems exro it xs = false → (visitItems exro it xs = true ↔ SatItems exro it xs))
+    (motive_1 := fun s v => visit exro s v = true ↔ SatReq exro s v)
+    (motive_2 := fun s kvs => visitFields exro s kvs = true ↔ SatFields exro s kvs)
+    (motive_3 := fun it xs => visitItems exro it xs = true ↔ SatItems exro it xs)
   refine (key ?null ?bool ?int ?half ?str ?arr ?obj ?inil ?icons ?fnil ?fcons).1
-  case null => intro s _; simp [visit, SatReq]
+  case null => intro s; simp [visit, SatReq]
   case bool =>
-    intro s b _
+    intro s b
     rw [visit, SatReq]
     cases he : isEmptyLeaf s with
     | true => have e := emptyLeaf_of s he; simp [e.ty]
     | false => simp [permits_iff]
   case int =>
-    intro s n _
+    intro s n
     rw [visit, SatReq]
     cases he : isEmptyLeaf s with
     | true => have e := emptyLeaf_of s he; simp [e.ty, e.max]
@@ -191,7 +188,7 @@ theorem visit_asreq_iff_partial (exro : Bool) :
         | none => simp [maxOK]
         | some m => simp [maxOK]
   case half =>
-    intro s n _
+    intro s n
     rw [visit, SatReq]
     cases he : isEmptyLeaf s with
     | true => have e := emptyLeaf_of s he; simp [e.ty, e.max]
@@ -205,7 +202,7 @@ theorem visit_asreq_iff_partial (exro : Bool) :
         | none => simp [maxOK]
         | some m => simp [maxOK]
   case str =>
-    intro s t _
+    intro s t
     rw [visit, SatReq]
     cases he : isEmptyLeaf s with
     | true => have e := emptyLeaf_of s he; simp [e.ty, e.minLen]
@@ -218,9 +215,8 @@ theorem visit_asreq_iff_partial (exro : Bool) :
         · exact h
       · intro h; exact Or.inr h
   case arr =>
-    intro s xs ih hro
+    intro s xs ih
     rw [visit, SatReq]
-    rw [roNull] at hro
     cases he : isEmptyLeaf s with
     | true => have e := emptyLeaf_of s he; simp [e.ty, e.items]
     | false =>
@@ -229,41 +225,33 @@ theorem visit_asreq_iff_partial (exro : Bool) :
       cases hi : s.items with
       | none => simp
       | some it =>
-        simp only [hi] at hro
         simp only [Option.some.injEq, forall_eq']
-        exact ih it hro
+        exact ih it
   case obj =>
-    intro s kvs ih hro
+    intro s kvs ih
     rw [visit, SatReq]
-    rw [roNull] at hro
     cases he : isEmptyLeaf s with
     | true =>
       have e := emptyLeaf_of s he
       have hf : SatFields exro s kvs := satFields_of_emptyLeaf exro s e kvs
       simp [e.ty, e.required, e.props, lookup, isRO, hf]
     | false =>
-      simp only [Bool.false_or, Bool.and_eq_true, permits_iff, roLoopOK_iff exro s kvs hro, requiredOK_iff, ih hro]
+      simp only [Bool.false_or, Bool.and_eq_true, permits_iff, roLoopOK_iff exro s kvs, requiredOK_iff, ih]
       constructor
       · rintro ⟨⟨⟨h1, h2⟩, h3⟩, h4⟩; exact ⟨h1, h3, h4, h2⟩
       · rintro ⟨h1, h3, h4, h2⟩; exact ⟨⟨⟨h1, h2⟩, h3⟩, h4⟩
-  case inil => intro it _; simp [visitItems, SatItems]
+  case inil => intro it; simp [visitItems, SatItems]
   case icons =>
-    intro it v r ih1 ih2 hro
-    rw [roNullItems] at hro
-    simp only [Bool.or_eq_false_iff] at hro
-    rw [visitItems, SatItems, Bool.and_eq_true, ih1 hro.1, ih2 hro.2]
-  case fnil => intro s _; simp [visitFields, SatFields]
+    intro it v r ih1 ih2
+    rw [visitItems, SatItems, Bool.and_eq_true, ih1, ih2]
+  case fnil => intro s; simp [visitFields, SatFields]
   case fcons =>
-    intro s k v r ih1 ih2 hro
-    rw [roNullFields] at hro
-    simp only [Bool.or_eq_false_iff] at hro
-    rw [visitFields, SatFields, Bool.and_eq_true, ih2 hro.2]
+    intro s k v r ih1 ih2
+    rw [visitFields, SatFields, Bool.and_eq_true, ih2]
     apply and_congr _ Iff.rfl
     cases hl : lookup k s.props with
     | none => simp
-    | some p =>
-      simp only [hl, Bool.or_eq_false_iff] at hro
-      exact ih1 p hro.1.2
+    | some p => exact ih1 p
 
 /-- the executable oracle used in the correspondence run decides `SatReq` -/
 theorem satReqB_iff (exro : Bool) : ∀ (s : RS) (v : V), satReqB exro s v = true ↔ SatReq exro s v := by
@@ -324,46 +312,22 @@ theorem satReqB_iff (exro : Bool) : ∀ (s : RS) (v : V), satReqB exro s v = tru
     | none => simp
     | some p => exact ih1 p
 
-/-- with read-only validation excluded nothing is in the class `ReadOnlyNull` … -/
-theorem roNull_exro : ∀ (s : RS) (v : V), roNull true s v = false := by
-  have key := visit.mutual_induct
-    (motive_1 := fun s v => roNull true s v = false)
-    (motive_2 := fun s kvs => roNullFields true s kvs = false)
-    (motive_3 := fun it xs => roNullItems true it xs = false)
-  refine (key ?null ?bool ?int ?half ?str ?arr ?obj ?inil ?icons ?fnil ?fcons).1
-  case null => intro s; rfl
-  case bool => intro s b; rfl
-  case int => intro s n; rfl
-  case half => intro s n; rfl
-  case str => intro s t; rfl
-  case arr => intro s xs ih; rw [roNull]; cases s.items with | none => rfl | some it => exact ih it
-  case obj => intro s kvs ih; rw [roNull]; exact ih
-  case inil => intro it; rfl
-  case icons => intro it v r ih1 ih2; rw [roNullItems, ih1, ih2]; rfl
-  case fnil => intro s; rfl
-  case fcons =>
-    intro s k v r ih1 ih2
-    rw [roNullFields, ih2]
-    cases lookup k s.props with
-    | none => rfl
-    | some p => simp [ih1 p]
-
-/-- … so under `ExcludeReadOnlyValidations` the equivalence holds at full strength: a readOnly property may be
-present, may be absent even if required, and everything else is checked as usual -/
+/-- under `ExcludeReadOnlyValidations` a readOnly property may be present, may be absent even if required, and
+everything else is checked as usual (instance of `visit_asreq_iff`) -/
 theorem visit_exro_iff (s : RS) (v : V) : visit true s v = true ↔ SatReq true s v :=
-  visit_asreq_iff_partial true s v (roNull_exro s v)
+  visit_asreq_iff true s v
 
-/-- The deviation is real (finding F-C06-2): property `a` is readOnly, nullable; the request body
-`{"a": null}` carries the key, the validator accepts it, the request-side reading does not. -/
-theorem readOnlyNull_witness :
+/-- regression of the repaired finding F-C06-2 (ReadOnlyNull, e80060c): property `a` is readOnly, nullable;
+the request body `{"a": null}` carries the key; validator and request-side reading now both reject it. -/
+theorem readOnlyNull_regression :
     let pa := RS.mk (some .string) true true false 0 none [] [] none none
     let s := RS.mk (some .object) false false false 0 none [(['a'], pa)] [] none none
     let v := V.obj [(['a'], .null)]
-    roNull false s v = true ∧ visit false s v = true ∧ satReqB false s v = false := by decide
+    visit false s v = false ∧ satReqB false s v = false ∧ visit true s v = true ∧ satReqB true s v = true := by decide
 
-/-- a readOnly property sent with a non-null value is rejected (read-only validation on) -/
+/-- a readOnly property that is present — with any value, null included — is rejected (read-only validation on) -/
 theorem readOnly_present_rejected (s : RS) (kvs : List (Str × V)) (k : Str) (v : V)
-    (hro : isRO (lookup k s.props) = true) (hv : lookup k kvs = some v) (hnn : v.isNull = false) :
+    (hro : isRO (lookup k s.props) = true) (hv : lookup k kvs = some v) :
     visit false s (.obj kvs) = false := by
   rw [visit]
   have hkp : k ∈ keys s.props := by
@@ -379,7 +343,7 @@ theorem readOnly_present_rejected (s : RS) (kvs : List (Str × V)) (k : Str) (v 
     apply Bool.eq_false_iff.mpr
     intro hall
     have := (List.all_eq_true.mp hall) k hkp
-    simp [hro, hv, hnn] at this
+    simp [hro, hv] at this
   simp [he, hl]
 
 /-- a required readOnly property may be missing from a request: the `required` check is the same as for the
@@ -468,15 +432,17 @@ theorem writeOnly_irrelevant (exro : Bool) : ∀ (s : RS) (v : V), visit exro s.
 def exInt' : RS := RS.mk (some .integer) false false false 0 none [] [] none none
 
 
-/-- **C06(d), urlencoded.** Outside the classes `FormFieldUnparsable` and `FormNullForMissing` (and for
-well-formed per-property encodings and a schema the decoder supports) the object built by
-`UrlencodedBodyDecoder` is exactly the object the form fields encode under the declared types and
-serialization methods (explode / form, spaceDelimited, pipeDelimited). -/
+/- Full-strength statement (does NOT hold of the code, see `formUnparsable_witness`): the same without `hu`. -/
+
+/-- **C06(d), urlencoded.** Outside the class `FormFieldUnparsable` (and for well-formed per-property
+encodings and a schema the decoder supports) the object built by `UrlencodedBodyDecoder` is exactly the
+object the form fields encode under the declared types and serialization methods (explode / form,
+spaceDelimited, pipeDelimited); absent and empty fields are absent from the object (repair 2621864). -/
 theorem decodeForm_eq_spec_partial (fields : List (Str × List Str)) (encs : List (Str × Enc)) (props : List (Str × RS))
-    (hu : formUnparsable fields encs props = false) (hn : formNullStored fields encs props = false)
+    (hu : formUnparsable fields encs props = false)
     (hwf : encsWF encs props = true) (hpre : formPre props = .ok) :
     specFormProps fields encs props = some (decodeFormProps fields encs props) :=
-  formProps_agree fields encs props hu hn hwf hpre
+  formProps_agree fields encs props hu hwf hpre
 
 /-- inside `FormFieldUnparsable` the decoder really differs from what the fields encode: `a=x` for an integer
 property encodes nothing, the decoder answers the empty object (finding #20 / F-C06-1) -/
@@ -486,18 +452,19 @@ theorem formUnparsable_witness :
     formUnparsable fields [] props = true ∧ (specFormProps fields [] props).isNone = true ∧
     (decodeFormProps fields [] props).isEmpty = true := by decide
 
-/-- inside `FormNullForMissing`: the form `b=1` against optional properties `a` (string) and `b` (integer)
-encodes the object with `b` only; the decoder stores `a: null`, and the validator then rejects the body
-(F-C06-3) -/
-theorem formNullStored_witness :
+/-- regression of the repaired finding F-C06-3 (FormNullForMissing, 2621864): the form `b=1` against optional
+properties `a` (string) and `b` (integer) encodes the object with `b` only; the decoder now builds exactly
+that object (one entry, no `a: null`) and the validator accepts it -/
+theorem formMissing_regression :
     let pa := RS.mk (some .string) false false false 0 none [] [] none none
     let pb := RS.mk (some .integer) false false false 0 none [] [] none none
     let props := [(['a'], pa), (['b'], pb)]
     let s := RS.mk (some .object) false false false 0 none props [] none none
     let fields := [(['b'], [['1']])]
-    formNullStored fields [] props = true ∧
+    formUnparsable fields [] props = false ∧
+    keys (decodeFormProps fields [] props) = [['b']] ∧
     (match specFormProps fields [] props with | some o => satReqB false s (.obj o) | none => false) = true ∧
-    visit false s (.obj (decodeFormProps fields [] props)) = false := by decide
+    visit false s (.obj (decodeFormProps fields [] props)) = true := by decide
 
 /-- **C06(d), round trip (spec side).** For every flat object of primitives and non-empty primitive arrays
 written under the per-property encodings (exploded, or joined with the style's delimiter when no item text
@@ -535,20 +502,19 @@ theorem specForm_roundtrip (encs : List (Str × Enc)) (val : Str → Option V) (
         simp [this, objOf, hv]
   exact gen props (fun _ h => h)
 
-/-- **C06(d), round trip (decoder).** The same for the model of `UrlencodedBodyDecoder`, outside the class
-`FormNullForMissing` (every declared property is given a value, so nothing is stored as null):
-`decodeForm (encodeForm o) = o`. -/
-theorem decodeForm_roundtrip_partial (encs : List (Str × Enc)) (val : Str → Option V) (props : List (Str × RS))
+/-- **C06(d), round trip (decoder), full strength.** `decodeForm (encodeForm o) = o` for the model of
+`UrlencodedBodyDecoder`: every flat object of primitives and non-empty primitive arrays written under the
+per-property encodings is decoded to itself (properties the client leaves out stay out). -/
+theorem decodeForm_roundtrip (encs : List (Str × Enc)) (val : Str → Option V) (props : List (Str × RS))
     (hnd : (keys props).Nodup)
     (henc : ∀ k p v, (k, p) ∈ props → val k = some v → FormEncodable p (lookup k encs) v)
-    (hwf : encsWF encs props = true) (hpre : formPre props = .ok)
-    (hn : formNullStored (encodeForm encs val props) encs props = false) :
+    (hwf : encsWF encs props = true) (hpre : formPre props = .ok) :
     decodeFormProps (encodeForm encs val props) encs props = objOf val props := by
   have hs := specForm_roundtrip encs val props hnd henc
   have hu : formUnparsable (encodeForm encs val props) encs props = false := by
     generalize encodeForm encs val props = fields at hs
     generalize objOf val props = o at hs
-    clear hn hpre hwf henc hnd
+    clear hpre hwf henc hnd
     induction props generalizing o with
     | nil => rfl
     | cons x r ih =>
@@ -561,7 +527,7 @@ theorem decodeForm_roundtrip_partial (encs : List (Str × Enc)) (val : Str → O
         cases h2 : specFormProps fields encs r with
         | none => cases o1 <;> simp [h1, h2] at hs
         | some l => exact ⟨by simp, ih l h2⟩
-  have := formProps_agree _ encs props hu hn hwf hpre
+  have := formProps_agree _ encs props hu hwf hpre
   rw [hs] at this
   exact (Option.some.inj this).symm
 
@@ -570,7 +536,8 @@ example :
     let props := [(['a'], exInt'), (['b'], RS.mk (some .array) false false false 0 none [] [] none (some (RS.mk (some .number) false false false 0 none [] [] none none)))]
     let encs := [(['b'], ({ style := "pipeDelimited".toList, explode := some false } : Enc))]
     encodeForm encs val props = [(['a'], ["-12".toList]), (['b'], ["1.5|3".toList])] ∧
-    formNullStored (encodeForm encs val props) encs props = false := by decide
+    formUnparsable (encodeForm encs val props) encs props = false ∧
+    keys (decodeFormProps (encodeForm encs val props) encs props) = [['a'], ['b']] := by decide
 
 /-- multipart: properties without a part are absent from the object (not null) -/
 theorem assemble_absent (vals : List (Str × V)) (props : List (Str × RS)) (k : Str)
@@ -626,7 +593,7 @@ theorem plain_decoder (text : Str) (j : Option V) :
 /-- model decoder vs the value the body encodes, for the selected media type -/
 theorem decode_agrees (reg : List (Str × DecK)) (rb : ReqBody) (ct : Str) (b : BodyIn) (mt : MediaType) (s : RS)
     (h : b.text ≠ []) (hc : rb.content ≠ []) (hs : contentGet rb.content ct = some mt) (hn : mt.schema = some s)
-    (h1 : exclFormUnparsable reg rb ct b = false) (h2 : exclFormNull reg rb ct b = false)
+    (h1 : exclFormUnparsable reg rb ct b = false)
     (h3 : formEncsWF reg rb ct b = true) :
     (∀ v, decodeBody reg ct s mt.encs b = .val v → specDecode reg ct s mt.encs b = some v) ∧
     (decodeBody reg ct s mt.encs b = .err → specDecode reg ct s mt.encs b = none) := by
@@ -663,15 +630,14 @@ theorem decode_agrees (reg : List (Str × DecK)) (rb : ReqBody) (ct : Str) (b : 
                 | cons _ _ => rfl
               simp [h, hc', hs, hn, hreg, hf, hty, hpre]
             simp only [exclFormUnparsable, hrun] at h1
-            simp only [exclFormNull, hrun] at h2
             simp only [formEncsWF, hrun] at h3
-            have := formProps_agree fields mt.encs s.props h1 h2 h3 hpre
+            have := formProps_agree fields mt.encs s.props h1 h3 hpre
             simp [this]
 
-/- Full-strength statement (does NOT hold of the code, see the three witnesses):
+/- Full-strength statement (does NOT hold of the code, see `witness_formFieldUnparsable`):
      accept_iff : (validateRequestBody reg rb ct b exro).isOk = true ↔ Accept reg rb ct b exro  -/
 
-/-- **C06, main theorem.** Outside the three exclusion classes, request-body validation accepts exactly when
+/-- **C06, main theorem.** Outside the one remaining exclusion class (FormFieldUnparsable, #20), request-body validation accepts exactly when
 the property says so: an empty body iff not required; otherwise the media type is the first declared one in
 the precedence order of the header text, an undeclared type is rejected, an entry without schema accepts, and
 else the value the body encodes under the decoder registered for the header's media type must exist and
@@ -681,8 +647,7 @@ no array property without `items` in a form schema) and form encodings are well-
 theorem accept_iff_partial (reg : List (Str × DecK)) (rb : ReqBody) (ct : Str) (b : BodyIn) (exro : Bool)
     (hmod : validateRequestBody reg rb ct b exro ≠ .panic ∧ validateRequestBody reg rb ct b exro ≠ .unmodelled)
     (hwf : formEncsWF reg rb ct b = true)
-    (h1 : exclFormUnparsable reg rb ct b = false) (h2 : exclFormNull reg rb ct b = false)
-    (h3 : exclReadOnlyNull reg rb ct b exro = false) :
+    (h1 : exclFormUnparsable reg rb ct b = false) :
     (validateRequestBody reg rb ct b exro).isOk = true ↔ Accept reg rb ct b exro := by
   unfold Accept
   by_cases ht : b.text = []
@@ -696,7 +661,7 @@ theorem accept_iff_partial (reg : List (Str × DecK)) (rb : ReqBody) (ct : Str) 
         cases hn : mt.schema with
         | none => simp [validateRequestBody, ht, hc, hs, hn, Outcome.isOk]
         | some s =>
-          have hd := decode_agrees reg rb ct b mt s ht hc hs hn h1 h2 hwf
+          have hd := decode_agrees reg rb ct b mt s ht hc hs hn h1 hwf
           have hout := decoded_then_validated reg rb ct b exro ht hc mt s hs hn
           rw [hout] at hmod ⊢
           cases hdec : decodeBody reg ct s mt.encs b with
@@ -707,13 +672,7 @@ theorem accept_iff_partial (reg : List (Str × DecK)) (rb : ReqBody) (ct : Str) 
           | unmodelled => simp [hdec] at hmod
           | val v =>
             have hsv := hd.1 v hdec
-            have hro : roNull exro s v = false := by
-              have hc' : rb.content.isEmpty = false := by
-                cases hcc : rb.content with
-                | nil => exact absurd hcc hc
-                | cons _ _ => rfl
-              simpa [exclReadOnlyNull, decodedValue, ht, hc', hs, hn, hdec] using h3
-            have hv := visit_asreq_iff_partial exro s v hro
+            have hv := visit_asreq_iff exro s v
             constructor
             · intro hok
               refine Or.inr ⟨ht, Or.inr ⟨mt, rfl, Or.inr ⟨s, v, hn, hsv, ?_⟩⟩⟩
@@ -786,22 +745,27 @@ theorem witness_formFieldUnparsable :
     exclFormUnparsable registry rb exForm b = true ∧
     validateRequestBody registry rb exForm b false = .ok ∧ acceptB registry rb exForm b false = false := by decide
 
-/-- F-C06-3: `b=1` against optional `{a: string, b: integer}` — `a` is stored as null and the body rejected,
-although it encodes the valid object `{b: 1}` -/
-theorem witness_formNullForMissing :
+/-- regression of F-C06-3 (repaired, 2621864): `b=1` against optional `{a: string, b: integer}` is accepted, as the
+property says; a missing *required* nullable property is rejected -/
+theorem regression_formNullForMissing :
     let rb : ReqBody := ⟨true, [(exForm, ⟨some (exObj [(exStr "a", exString), (exStr "b", exInt)] []), []⟩)]⟩
+    let sn := RS.mk (some .string) true false false 0 none [] [] none none
+    let rb2 : ReqBody := ⟨true, [(exForm, ⟨some (exObj [(exStr "a", sn), (exStr "b", exInt)] [exStr "a"]), []⟩)]⟩
     let b := exBody "b=1" none (some [(exStr "b", [exStr "1"])])
-    exclFormNull registry rb exForm b = true ∧
-    validateRequestBody registry rb exForm b false = .schemaErr ∧ acceptB registry rb exForm b false = true := by decide
+    exclFormUnparsable registry rb exForm b = false ∧
+    validateRequestBody registry rb exForm b false = .ok ∧ acceptB registry rb exForm b false = true ∧
+    validateRequestBody registry rb2 exForm b false = .schemaErr ∧ acceptB registry rb2 exForm b false = false := by decide
 
-/-- F-C06-2: JSON body `{"a": null}` against `{a: string, readOnly, nullable}` is accepted -/
-theorem witness_readOnlyNull :
+/-- regression of F-C06-2 (repaired, e80060c): JSON body `{"a": null}` against `{a: string, readOnly, nullable}`
+is rejected, and accepted under ExcludeReadOnlyValidations -/
+theorem regression_readOnlyNull :
     let pa := RS.mk (some .string) true true false 0 none [] [] none none
     let rb : ReqBody := ⟨true, [(exStr "application/json", ⟨some (exObj [(exStr "a", pa)] []), []⟩)]⟩
     let b := exBody "{\"a\":null}" (some (.obj [(exStr "a", .null)])) none
-    exclReadOnlyNull registry rb (exStr "application/json") b false = true ∧
-    validateRequestBody registry rb (exStr "application/json") b false = .ok ∧
-    acceptB registry rb (exStr "application/json") b false = false := by decide
+    validateRequestBody registry rb (exStr "application/json") b false = .schemaErr ∧
+    acceptB registry rb (exStr "application/json") b false = false ∧
+    validateRequestBody registry rb (exStr "application/json") b true = .ok ∧
+    acceptB registry rb (exStr "application/json") b true = true := by decide
 
 /-- #36 (fixed): a JSON body with trailing data is not one JSON value: the decoder's view is `none`, the
 model rejects with a decoding error and so does the property -/
@@ -816,8 +780,7 @@ example :
     let rb : ReqBody := ⟨true, [(exStr "application/*", ⟨some (exObj [(exStr "a", exInt), (exStr "b", exString)] [exStr "a"]), []⟩)]⟩
     let ct := exStr "application/x-www-form-urlencoded; charset=utf-8"
     let b := exBody "a=7&b=x" none (some [(exStr "a", [exStr "7"]), (exStr "b", [exStr "x"])])
-    formEncsWF registry rb ct b = true ∧ exclFormUnparsable registry rb ct b = false ∧ exclFormNull registry rb ct b = false ∧
-    exclReadOnlyNull registry rb ct b false = false ∧
+    formEncsWF registry rb ct b = true ∧ exclFormUnparsable registry rb ct b = false ∧
     validateRequestBody registry rb ct b false = .ok ∧ acceptB registry rb ct b false = true := by decide
 
 example :
@@ -827,7 +790,6 @@ example :
     let ct := exStr "application/json; charset=utf-8"
     let good := exBody "{\"n\":1}" (some (.obj [(exStr "n", .int 1)])) none
     let bad := exBody "{\"id\":\"x\",\"n\":1}" (some (.obj [(exStr "id", .str (exStr "x")), (exStr "n", .int 1)])) none
-    exclReadOnlyNull registry rb ct good false = false ∧ exclReadOnlyNull registry rb ct bad false = false ∧
     validateRequestBody registry rb ct good false = .ok ∧ acceptB registry rb ct good false = true ∧
     validateRequestBody registry rb ct bad false = .schemaErr ∧ acceptB registry rb ct bad false = false ∧
     validateRequestBody registry rb ct bad true = .ok ∧ acceptB registry rb ct bad true = true ∧
